@@ -59,7 +59,23 @@ const (
 	GetFuture
 	GetErrorOnGet    // listing ok, fetching blobs fails
 	GetNotFoundOnGet // listing ok, fetching blobs answers "blob: not found" (a lagging / pruned replica)
+	NumGetAnswers    // the menu of ANSWERS (every call returns at once); checks enumerate 0..NumGetAnswers-1
 )
+
+// The fetch side's "no answer" outcomes (the counterpart of SubmitNoAnswer): the request is lost, the DA layer answers
+// neither success nor error; the call is logged on arrival, then blocks until its context is done and returns the
+// context's error (virtual time in a synctest bubble makes the caller's per-attempt deadline cheap; a caller without a
+// deadline stays parked until it is cancelled). They lie OUTSIDE the 0..NumGetAnswers-1 menu on purpose, so checks that
+// enumerate that menu are unchanged; a check that wants them enumerates 0..NumGetAnswersWithLoss-1.
+const (
+	GetNoAnswer           GetAnswer = NumGetAnswers     // the listing call (GetIDs) gets no answer
+	GetNoAnswerOnGet      GetAnswer = NumGetAnswers + 1 // listing ok; the blob-chunk fetch (Get) holding the height's LAST id gets no answer (earlier chunks of a >100-id height succeed first)
+	NumGetAnswersWithLoss GetAnswer = NumGetAnswers + 2
+)
+
+func (a GetAnswer) String() string {
+	return [...]string{"ok", "listing-error", "not-found", "from-the-future", "error-on-get", "not-found-on-get", "listing-no-answer", "get-no-answer"}[a]
+}
 
 type SubmitCall struct {
 	Blobs  [][]byte
@@ -234,6 +250,14 @@ func (c *DAClient) GetIDs(ctx context.Context, height uint64, ns []byte) (*cored
 	if d.GetPolicy != nil {
 		ans = d.GetPolicy(height)
 	}
+	if ans == GetNoAnswer {
+		d.mu.Lock()
+		d.GetIDsLog = append(d.GetIDsLog, height)
+		d.mu.Unlock()
+		<-ctx.Done() // the only way out: the caller's deadline or cancellation
+		c.Fate.Check()
+		return nil, ctx.Err()
+	}
 	d.mu.Lock()
 	defer d.mu.Unlock()
 	d.GetIDsLog = append(d.GetIDsLog, height)
@@ -262,12 +286,22 @@ func (c *DAClient) GetIDs(ctx context.Context, height uint64, ns []byte) (*cored
 			ids[i] = append(ids[i], 0xEF) // Get answers ErrBlobNotFound
 		}
 	}
+	if ans == GetNoAnswerOnGet && len(ids) > 0 {
+		ids[len(ids)-1] = append(ids[len(ids)-1], 0xED) // the Get call holding this id gets no answer
+	}
 	return &coreda.GetIDsResult{IDs: ids, Timestamp: time.Unix(int64(1_700_000_000+height), 0).UTC()}, nil
 }
 
 func (c *DAClient) Get(ctx context.Context, ids []coreda.ID, ns []byte) ([]coreda.Blob, error) {
 	c.enter("da.get")
 	d := c.DA
+	for _, id := range ids {
+		if len(id) == 41 && id[40] == 0xED { // GetNoAnswerOnGet: this request is lost
+			<-ctx.Done()
+			c.Fate.Check()
+			return nil, ctx.Err()
+		}
+	}
 	d.mu.Lock()
 	defer d.mu.Unlock()
 	var out []coreda.Blob
